@@ -4,7 +4,23 @@
  *       reduce*.jdf + wrapper, the matrix collections, scheduler modules, remote_dep, comm engine).
  * Simulated: thread scheduling, clock, MPI network (simmpi).
  * knob `prop` (21 or 22) selects the workload family; `red` (bit mask, C22) selects which reductions are
- * generated: 1 = the reduce.jdf tree, 2 = parsec_reduce_col_New, 4 = parsec_reduce_row_New. */
+ * generated: 1 = the reduce.jdf tree, 2 = parsec_reduce_col_New, 4 = parsec_reduce_row_New; `mapempty=0`
+ * drops map_operator calls on matrices of which some rank owns no tile.
+ *
+ * What the oracles can and cannot say about this tree (see also registry.d/C22.py):
+ *  - redistribute_internal.h fixes DTYPE to double, so C21 only uses PARSEC_MATRIX_DOUBLE; sym_two_dim_block_cyclic is
+ *    refused by redistribute (unsupported dtype) and therefore only used for C22's apply; the symmetric distribution that
+ *    redistribute supports is SBC (1-3 ranks).
+ *  - parsec_redistribute_Destruct / parsec_reduce_{col,row}_Destruct are declared in matrix.h but defined nowhere: the
+ *    "New" variants are released with parsec_taskpool_free (the class destructors free the arenas).
+ *  - the reductions are stubs (BODYs only printf, the operator is never invoked; reduce_{col,row}_New index src and dest
+ *    out of range for every shape; reduce.jdf reads descA(2p,0) on the rank of descA(p,0) and descA(MT,0) when MT is even).
+ *    By default only the reduce.jdf tree is generated, in the one shape whose references are all legal (MT odd, tile column
+ *    0 on one rank, as in tests/collections/reduce.c); it has no operator, so its oracle is completion + no collateral
+ *    write.  `--knob red=6` generates the column/row reductions with the oracle C22 states (operator applied, result ==
+ *    sequential fold): classes reduce-operator-never-called / reduce-wrong-result / crash.
+ *  - parsec_map_operator never terminates on a rank that owns no tile: reported as no-progress with the tag
+ *    [map-operator-on-tileless-rank] in the detail. */
 #define _GNU_SOURCE
 #include "../hx.h"
 #include "../../sim/mpi/simmpi.h"
@@ -95,6 +111,7 @@ static void build_model(void)
     for (int k = 0; k < SH.nops; k++) {
         const mat_op_t *o = &SH.ops[k];
         memcpy(MODEL[k], k ? MODEL[k - 1] : INIT, sizeof(MODEL[k]));
+        if (k) memcpy(DONTCARE[k], DONTCARE[k - 1], sizeof(DONTCARE[k]));
         EXPECT_OK[k] = 1;
         const mat_desc_t *a = &SH.A;
         switch (o->kind) {
@@ -114,6 +131,7 @@ static void build_model(void)
         case MO_MAP:
             for (int m = 0; m < GE[0].lmt; m++) for (int n = 0; n < GE[0].lnt; n++) {
                 REGION[k][m][n] = 1;
+                if (o->destmode == 2) DONTCARE[k][1][m][n] = DONTCARE[k][0][m][n];
                 for (int i = 0; i < a->mb; i++) for (int j = 0; j < a->nb; j++) {
                     int I = m * a->mb + i, J = n * a->nb + j;
                     if (o->destmode == 1) MODEL[k][0][I][J] += delta_of(k);
@@ -229,6 +247,28 @@ void math_reduce_op(int rank, long cookie, const void *src, void *dst)
     }
 }
 
+/* which rank owns tile (m,n) according to the documented distribution (2D block cyclic, tabular): only used to
+ * recognise plans in which some rank owns no tile (knob mapempty, abort description), never as an oracle */
+static int model_owner(const mat_desc_t *d, int nranks, int m, int n)
+{
+    if (d->dist == MD_2DBC) return (((m / d->kp) % d->P + d->ip) % d->P) * d->Q + ((n / d->kq) % d->Q + d->jq) % d->Q;
+    if (d->dist == MD_TAB) {
+        int lmt = (d->M + d->mb - 1) / d->mb;
+        uint64_t s = 0x7ab1e000ULL + d->seed;
+        uint64_t v = 0;
+        for (int p = 0; p <= n * lmt + m; p++) v = sim_splitmix(&s);
+        return (int)(v % (uint64_t)nranks);
+    }
+    return -1;
+}
+static int some_rank_without_tiles(const mat_desc_t *d, int nranks)
+{
+    int have[16] = {0}, lmt = (d->M + d->mb - 1) / d->mb, lnt = (d->N + d->nb - 1) / d->nb;
+    for (int m = 0; m < lmt; m++) for (int n = 0; n < lnt; n++) { int r = model_owner(d, nranks, m, n); if (r >= 0 && r < 16) have[r] = 1; }
+    for (int r = 0; r < nranks; r++) if (!have[r]) return 1;
+    return 0;
+}
+
 /* ---- plan <-> shared ---- */
 static int clampi(long v, int lo, int hi) { return v < lo ? lo : v > hi ? hi : (int)v; }
 static void decode_desc(const hx_plan_t *p, const char *pre, mat_desc_t *d, int nranks, int allow_sym)
@@ -254,6 +294,7 @@ static void decode_desc(const hx_plan_t *p, const char *pre, mat_desc_t *d, int 
         if (nranks == 1 || nranks == 2) d->r = 2; else if (nranks == 3) d->r = 3; else d->dist = MD_2DBC;
     }
     if (d->dist != MD_2DBC) { d->kp = d->kq = 1; d->ip = d->jq = 0; }
+    if (d->dist == MD_SYM) { d->N = d->M; d->nb = d->mb; }     /* symmetric storage describes a square matrix (its tile counting assumes lmt == lnt) */
     snprintf(k, sizeof(k), "%s_seed", pre);
     d->seed = (unsigned)hx_knob(p, k, 1);
 }
@@ -299,10 +340,12 @@ static void plan_to_shared(const hx_plan_t *p)
             m->disj_Y = (int)(((o->b >> 8) & 0xff) % (YN - m->size_col + 1));
             m->disi_T = (int)(((o->b >> 16) & 0xff) % (TM - m->size_row + 1));
             m->disj_T = (int)(((o->b >> 24) & 0xff) % (TN - m->size_col + 1));
-            if ((o->c >> 1) & 1) {      /* snap displacements to tile boundaries (keeps them legal: rounds down) */
-                m->disi_Y -= m->disi_Y % y->mb; m->disj_Y -= m->disj_Y % y->nb;
-                m->disi_T -= m->disi_T % t->mb; m->disj_T -= m->disj_T % t->nb;
-            }
+            /* snap displacements to tile boundaries (keeps them legal: rounds down): bit 1 of c = all four, bits 4..7 = one each */
+            int snapm = ((o->c >> 1) & 1) ? 15 : (int)((o->c >> 4) & 15);
+            if (snapm & 1) m->disi_Y -= m->disi_Y % y->mb;
+            if (snapm & 2) m->disj_Y -= m->disj_Y % y->nb;
+            if (snapm & 4) m->disi_T -= m->disi_T % t->mb;
+            if (snapm & 8) m->disj_T -= m->disj_T % t->nb;
         } else {
             int sym = SH.A.dist == MD_SYM || SH.A.dist == MD_SBC;
             if (o->op == OP_APPLY) {
@@ -311,6 +354,8 @@ static void plan_to_shared(const hx_plan_t *p)
                 if (sym) m->uplo = SH.A.uplo;        /* only the stored triangle may be referenced */
             } else if (o->op == OP_MAP) {
                 if (sym) continue;                   /* map_operator walks the full tile grid */
+                /* knob mapempty=0: skip plans that run into the known defect "parsec_map_operator never terminates on a rank that owns no tile" */
+                if (!hx_knob(p, "mapempty", 1) && some_rank_without_tiles(&SH.A, SH.nranks)) continue;
                 m->kind = MO_MAP;
                 m->destmode = (int)(o->a % 3);
             } else if (o->op == OP_REDUCE) {
@@ -321,6 +366,9 @@ static void plan_to_shared(const hx_plan_t *p)
                 m->redop = (int)(o->b & 1);
                 /* reduce.jdf references descA(2p,0) for p up to MT/2: only an odd MT keeps every reference inside the matrix */
                 if (m->kind == MO_REDUCE && !(lmt & 1)) continue;
+                /* ... and reduce(l,p), placed on descA(p,0), reads descA(2p,0) and descA(2p+1,0) directly: legal only when tile column 0 lives on one rank
+                 * (tests/collections/reduce.c uses a 1 x world grid) */
+                if (m->kind == MO_REDUCE && SH.nranks > 1 && !(SH.A.dist == MD_2DBC && SH.A.P == 1)) continue;
                 if (m->kind != MO_REDUCE && SH.A.dist != MD_2DBC) continue;
             } else continue;
         }
@@ -402,7 +450,11 @@ static void gen(hx_plan_t *p, hx_rng_t *r)
             int YM = pad ? ((M + mb - 1) / mb) * mb : M, YN = pad ? ((N + nb - 1) / nb) * nb : N;
             int TM = pad ? ((M2 + mb2 - 1) / mb2) * mb2 : M2, TN = pad ? ((N2 + nb2 - 1) / nb2) * nb2 : N2;
             int maxr = YM < TM ? YM : TM, maxc = YN < TN ? YN : TN;
-            int snap = same_tiles ? hx_chance(r, 75) : hx_chance(r, 10);
+            /* with equal tile sizes: all four displacements aligned (reshuffle path), or all but one or two (general path next to the
+             * selection boundary), or unconstrained */
+            int snap = 0;
+            if (same_tiles) { int q = (int)hx_below(r, 100); snap = q < 50 ? 15 : q < 85 ? (int)(15 & ~(1 << hx_below(r, 4)) & ~(hx_chance(r, 30) ? 1 << hx_below(r, 4) : 0)) : 0; }
+            else if (hx_chance(r, 10)) snap = 15;
             /* an SBC matrix only stores one triangle: retry until the window references stored tiles only (a refused
              * call is kept in 1 plan out of 10 of those that never fit) */
             int sr = 1, sc = 1, dyi = 0, dyj = 0, dti = 0, dtj = 0;
@@ -413,18 +465,22 @@ static void gen(hx_plan_t *p, hx_rng_t *r)
                 dyi = (int)hx_below(r, YM - sr + 1); dyj = (int)hx_below(r, YN - sc + 1);
                 dti = (int)hx_below(r, TM - sr + 1); dtj = (int)hx_below(r, TN - sc + 1);
                 int a0 = dyi, a1 = dyj, a2 = dti, a3 = dtj;
-                if (snap) { a0 -= a0 % mb; a1 -= a1 % nb; a2 -= a2 % mb2; a3 -= a3 % nb2; }
+                if (snap & 1) a0 -= a0 % mb;
+                if (snap & 2) a1 -= a1 % nb;
+                if (snap & 4) a2 -= a2 % mb2;
+                if (snap & 8) a3 -= a3 % nb2;
                 if (sbc_region_stored(&dy, sr, sc, a0, a1) && sbc_region_stored(&dt, sr, sc, a2, a3)) break;
-                if (tries == 0 && hx_chance(r, 4)) break;
+                if (tries == 0 && hx_chance(r, 15)) break;
             }
             long a = (sr - 1) | ((sc - 1) << 8);
             long b = dyi | (dyj << 8) | (dti << 16) | ((long)dtj << 24);
-            long c = hx_below(r, 2) | (snap << 1) | (pad << 2);
+            long c = hx_below(r, 2) | (pad << 2) | (snap << 4);
             hx_add_op(p, 0, OP_REDIST, a, b, c);
         }
     } else {
-        long red = hx_cli_knob("red", 1);
+        long red = hx_cli_knob("red", 7);
         hx_set_knob(p, "red", red);
+        hx_set_knob(p, "mapempty", hx_cli_knob("mapempty", 1));
         gen_desc(r, P, 1, 1, &M, &N, &mb, &nb, &grid);
         hx_set_knob(p, "a_shape", pack_shape(M, N, mb, nb));
         hx_set_knob(p, "a_grid", grid);
@@ -438,7 +494,10 @@ static void gen(hx_plan_t *p, hx_rng_t *r)
             else {
                 int kinds[3], nk = 0;
                 for (int k = 0; k < 3; k++) if ((red >> k) & 1) kinds[nk++] = k;
-                hx_add_op(p, 0, OP_REDUCE, kinds[hx_below(r, nk)], hx_below(r, 2), 0);
+                int kd = kinds[hx_below(r, nk)];
+                /* the column / row reductions of this tree are stubs (known finding KF-REDUCE-STUBS): keep them rare so that they shadow few plans */
+                if (kd != 0 && (red & 1) && !hx_cli_knob("red_often", 0) && !hx_chance(r, 30)) kd = 0;
+                hx_add_op(p, 0, OP_REDUCE, kd, hx_below(r, 2), 0);
             }
         }
     }
@@ -456,7 +515,7 @@ static void init(void)
     setenv("HWLOC_SYNTHETIC", "pack:1 core:16 pu:1", 1);
     setenv("HWLOC_THISSYSTEM", "0", 1);
     char tmpl[] = "/tmp/verif_home_XXXXXX";
-    char *d = mkdtemp(tmpl);
+    char *d = hx_scratch_dir(tmpl);
     if (d) setenv("HOME", d, 1);
     extern char **environ;
     for (char **e = environ; *e;) {
@@ -641,7 +700,12 @@ static void annotate(const hx_plan_t *p, char *buf, size_t n)
     desc_str(a, sizeof(a), &SH.A);
     desc_str(b, sizeof(b), &SH.B);
     if (PROP == 21) snprintf(buf, n, "[Y=%s; T=%s; ranks=%d threads=%d sched=%s]", a, b, SH.nranks, SH.nthreads, SCHEDS[hx_knob(p, "sched", 0) % NSCHED]);
-    else snprintf(buf, n, "[A=%s %s; ranks=%d threads=%d sched=%s]", a, SH.A.mtype == MTY_INT ? "int" : "double", SH.nranks, SH.nthreads, SCHEDS[hx_knob(p, "sched", 0) % NSCHED]);
+    else {
+        int colrow = 0;
+        for (int i = 0; i < p->nops; i++) if (p->ops[i].op == OP_REDUCE && (p->ops[i].a % 3) != 0) colrow = 1;
+        snprintf(buf, n, "[A=%s %s; ranks=%d threads=%d sched=%s%s]", a, SH.A.mtype == MTY_INT ? "int" : "double", SH.nranks, SH.nthreads, SCHEDS[hx_knob(p, "sched", 0) % NSCHED],
+                 colrow ? " plan-has-column-or-row-reduction" : "");
+    }
     (void)dist_name;
 }
 /* characterise a hang from the harness's own bookkeeping (world stopped) */
@@ -651,7 +715,13 @@ static void describe_abort(char *buf, size_t n)
     for (int r = 0; r < SH.nranks && l < n; r++) {
         if (SH.rank_done[r]) l += snprintf(buf + l, n - l, "rank %d finished; ", r);
         else if (CUR_OP[r] < 0) l += snprintf(buf + l, n - l, "rank %d before its first operation; ", r);
-        else l += snprintf(buf + l, n - l, "rank %d %s operation %d (kind %d); ", r, OP_STATE[r] ? "inside" : "after", CUR_OP[r], SH.ops[CUR_OP[r]].kind);
+        else {
+            static const char *const kn[] = {"redistribute", "apply", "map_operator", "reduce", "reduce_col", "reduce_row"};
+            int tiles = 0;
+            for (int m = 0; m < GE[0].lmt; m++) for (int q = 0; q < GE[0].lnt; q++) if (FILLN[0][m][q] && OWNER[0][m][q] == r) tiles++;
+            l += snprintf(buf + l, n - l, "rank %d %s operation %d (%s)%s; ", r, OP_STATE[r] ? "inside" : "after", CUR_OP[r], kn[SH.ops[CUR_OP[r]].kind],
+                          OP_STATE[r] && !tiles ? (SH.ops[CUR_OP[r]].kind == MO_MAP ? " and owns no tile of the matrix [map-operator-on-tileless-rank]" : " and owns no tile of the matrix") : "");
+        }
     }
     for (int k = 0; k < SH.nops && l < n; k++) {
         const mat_op_t *o = &SH.ops[k];
@@ -665,12 +735,15 @@ static void describe_abort(char *buf, size_t n)
 static void tune(const hx_plan_t *p, sim_params_t *sp)
 {
     sp->quantum_ns = 20;
-    sp->max_steps = (uint64_t)hx_knob(p, "max_steps", 150000000);
+    /* complete runs need 3e4..5e6 scheduling points; PCT runs in which a spinning thread outranks the thread it waits for only
+     * finish in the fair tail, so start the tail early and keep a long fair phase for the no-progress verdict */
+    sp->max_steps = (uint64_t)hx_knob(p, "max_steps", 48000000);
+    sp->tail_after = (uint64_t)hx_knob(p, "tail_after", 12000000);
 }
 
 static const hx_harness_t H = {
     .property = "C21", .name = "mat", .opnames = opnames, .nopnames = OP_N,
-    .est_steps = 2500000, .max_steps = 150000000, .gap_lo = 150, .gap_hi = 60000, .fork_per_run = 1,
+    .est_steps = 600000, .max_steps = 48000000, .gap_lo = 150, .gap_hi = 60000, .fork_per_run = 1,
     .gen = gen, .run = run, .init = init, .tune = tune, .describe_abort = describe_abort, .annotate = annotate,
     .probe_names = probe_names, .nprobes = PR_N,
 };
